@@ -93,7 +93,10 @@ def pick_min(rng, maxb, batch):
     return max(0, min(maxb, rng.choice([0, 0, 8, 24, used - 1, used, used + 1, maxb, maxb - 1, rng.range(0, maxb), 64])))
 
 def enc_case(cid, dev, stream, batch, minb, maxb, api='ENC', pre=None, decode=True, edits=None):
-    lines = ['ENEW', 'EDEV %d' % dev, 'ESTR %d' % stream]
+    # dev / stream None: the encoder's id is never set (it stays at its default 0 - and the packets' own ids must not leak)
+    lines = ['ENEW'] + (['EDEV %d' % dev] if dev is not None else []) + (['ESTR %d' % stream] if stream is not None else [])
+    dev = 0 if dev is None else dev
+    stream = 0 if stream is None else stream
     if pre:
         lines += pre
     for i, p in enumerate(batch):
@@ -123,7 +126,12 @@ def gen_encode_cases(rng, count, thorough, tag):
             batch = gen_batch(r, maxb, npk, huge_ok=False)
         minb = pick_min(r, maxb, batch)
         api = r.choice(['ENC', 'ENC', 'ENCP']) if len(batch) != 1 else r.choice(['ENC', 'ENC1', 'ENCP'])
-        cases.append(enc_case('%s%d' % (tag, i), r.below(65536), r.below(256), batch, minb, maxb, api))
+        dv, st_ = r.below(65536), r.below(256)
+        k = r.below(12)
+        if k == 0: dv = None
+        elif k == 1: st_ = None
+        elif k == 2: dv = st_ = None
+        cases.append(enc_case('%s%d' % (tag, i), dv, st_, batch, minb, maxb, api))
     return cases
 
 BIG_MAXES = [65535, 65536, 65542, 65543, 65544, 65545, 65550, 65557, 65558, 65559, 65560, 65561, 65600, 80000, 131072, 200000]
